@@ -118,4 +118,45 @@ CHECKS = {
                 "'function/argparse targets are never rewritten'. Trusted: Lean kernel + 3 axioms, the correspondence harness.",
         "technique": "Lean 4 proof (frame/idempotence over a faithful rewrite model, parametric emitters) + CLI-history correspondence",
     },
+    "C05": {
+        "text": "Lean theorems over a decision-by-decision port of the SQLAlchemy emit/parse layer (param -> Column call, ensure_has_primary_key, "
+                "Column -> param, class<->Table normalisation; type tables regenerated from the imported modules on every run): exactly one primary "
+                "key in every emission for both force_pk_id values (full); the three variants parse to the same result for every interface (full); "
+                "column round trip on the SQL-representable domain lifted to interfaces, with negations on witnesses where the code deviates "
+                "(dict -> Optional[dict], one-member Literal, existing `id` column replaced). Tied to the code by AST skeleton + parsed IR comparison.",
+        "note": "Partial for the round-trip clause (9 known findings). Header docstring machinery, x_typ details and the [schema=..] comment are not "
+                "modelled. Trusted: Lean kernel + 3 axioms, the table translator, the correspondence harness.",
+        "technique": "Lean 4 proof (induction over parameter lists on a faithful port) + regenerated type tables + AST/IR differential correspondence",
+    },
+    "C16": {
+        "text": "Lean theorems over a port of components_paths_from_name_model_route_id_crud / emit.openapi / extract_entities / parse.openapi / "
+                "gen_routes / upsert_routes / openapi_bulk on an own JSON type: every $ref resolves and every request body is defined for ANY list of "
+                "models; operations are exactly those requested; every path template parameter is declared; (name+'Body').rpartition recovers the "
+                "name; bulk closure under the title-key hypothesis with the negation proved on witnesses; routes -> bulk round trip. Tied to the code "
+                "by whole-dict equality on generated documents through both pipelines.",
+        "note": "Partial for openapi_bulk (4 known findings: title() key, key collision, undocumented column KeyError, appended batch lost). yaml.safe_load, "
+                "the docstring parser and ast are parameters compared on every generated name. Trusted: Lean kernel + 3 axioms, the harness.",
+        "technique": "Lean 4 proof (invariant by induction over the model list on a faithful port) + whole-document differential correspondence",
+    },
+    "C19": {
+        "text": "Lean theorems over ports of gen_module / get_functions_and_classes / get_emit_kwarg / infer_imports / optimise_imports and main's gen guard "
+                "as an effect trace (per-format parse/emit as a parameter fed by the real ones): __all__ = names.map tpl in order, defined names, module "
+                "part order (__future__ first), guard => trace is exactly [isfile, raise IOError], never overwrites, imports cover every resolvable "
+                "name at any depth; universal negations for the emit/parse kinds that always fail and for the import-gluing crashes. Tied to the real CLI "
+                "(python -m cdd gen) by comparing exit status, exception class, file bytes under the guard and the written module as an AST.",
+        "note": "Partial: per-symbol parse-back is oracle-only; 21 known findings (several emit kinds always fail, __all__ not passed through "
+                "ensure_valid_identifier, import statements glued onto one line, ...). Trusted: Lean kernel + 3 axioms, the harness.",
+        "technique": "Lean 4 proof (list/permutation lemmas and an effect-trace model) + CLI differential correspondence",
+    },
+    "C04": {
+        "text": "Lean theorems over ports of the class/function/argparse emitters' decision logic (set_value, param2ast, _resolve_arg/_parse_node_for_arg, "
+                "infer_type_and_default, param2argparse_param) and a small semantics (class attributes, signature, argparse actions, accepts, parse_args([])): "
+                "class attributes carry the described annotations/defaults (full, incl. falsy defaults on compound types), one action per parameter with the "
+                "described help/default, choices only from all-constant Literal subscripts, exact characterisations of `required` and of the signature, with "
+                "negations where the code deviates. The semantics model is tied to CPython by exec of the real emitted source (in a scratch namespace) and "
+                "comparison of __annotations__, inspect.signature, ArgumentParser._actions, parse_args([]) and legal-value probes.",
+        "note": "Partial: 'unparse then re-parse gives an equal AST' and CPython/inspect/argparse themselves are observed, not proved; 11 known findings "
+                "(required despite a default, Union converter, one-member Literal, ...). Trusted: Lean kernel + 3 axioms, the exec harness.",
+        "technique": "Lean 4 proof (closed forms of the emitters on the executable domain + denotational semantics) + exec-based correspondence",
+    },
 }
